@@ -410,6 +410,15 @@ def encode_obligations(ctx, afi, vpn, flow, intended, tags, rd=None, pad_at=None
         ctx.check('padding-zero', sx_eq(wire[k] % 2 ** free, 0), sig='C16:encode:v6:prefix-padding-not-zero', info={'wire': wire, 'want': want})
         return 'padding'
     ctx.check('wire', sx_eq(wire, want), sig='C16:encode:%s:wire%s' % (fam, tag), info={'wire': wire, 'want': want})
+    # a rule is serialised many times (Route.index() when it enters the RIB, then once per session and per refresh):
+    # the octets are a function of the rule, not of how often it was asked for them
+    try:
+        flow.index()
+        again = [B(ctx, flow.pack_nlri(None)) for _ in range(2)]
+        ctx.check('same-octets-every-time', s_and(*[sx_eq(a, wire) for a in again]), sig='C16:encode:%s:later-serialisation-differs%s' % (fam, tag),
+                  info={'first': wire, 'later': again})
+    except Notify:
+        ctx.check('same-octets-every-time', False, sig='C16:encode:%s:later-serialisation-refused%s' % (fam, tag))
     if 'ipv6-offset' in tags:
         # the pattern of a prefix with an offset has a different size in ExaBGP (see finding): reading those octets back
         # with the reference decoder only enumerates garbage; the octet-for-octet obligation above is the whole claim here
@@ -463,6 +472,26 @@ def h_encode(ctx, afi, spec, vpn=False, presence=False, zero_padding=True):
     r = encode_obligations(ctx, afi, vpn, flow, intended, tags, rd)
     ctx.note('class', 'types=%s' % (sorted(types),))
     return (types, r)
+
+
+def h_encode_grow(ctx, afi):
+    """A rule which is serialised, then GIVEN ANOTHER TERM (Flow.add on a component it already has, and a new component), then
+    serialised again - what the API does when a flow is built up in steps: the second serialisation is the RFC encoding of
+    the larger rule (end-of-list only on the last operator of each component, ascending types)."""
+    flow = Flow.make_flow(AFIS[afi], SAFI.flow_ip)
+    intended, tags = [], []
+    build_component(ctx, flow, afi, 0, ('destination-port', 1), intended, tags)
+    r1 = encode_obligations(ctx, afi, False, flow, intended, tags)
+    klass, vclass, t, kind, vmax = COMP['destination-port']
+    a = ctx.int('and.late', 0, 1)
+    bits = ctx.int('op.late', 0, 7)
+    v = ctx.int('v.late', 0, vmax)
+    flow.add(klass(a * 0x40 + bits, vclass(v)))
+    intended[0] = ('ops', t, intended[0][2] + [(a, bits, v)])
+    build_component(ctx, flow, afi, 1, ('protocol' if afi == V4 else 'next-header', 1), intended, tags)
+    ctx.cover('term-added-after-a-serialisation')
+    r2 = encode_obligations(ctx, afi, False, flow, intended, tags)
+    return (r1, r2)
 
 
 def h_encode_padding(ctx):
@@ -724,6 +753,7 @@ def units(tier):
         us.append(Unit('encode/v4/%s' % name, lambda ctx, spec=spec: h_encode(ctx, V4, spec), must_cover=('unsorted-input', 'width-1'), weight=300, max_seconds=T))
     for name, spec in ENC_V6.items():
         us.append(Unit('encode/v6/%s' % name, lambda ctx, spec=spec: h_encode(ctx, V6, spec), must_cover=('unsorted-input', 'width-1'), weight=300, max_seconds=T))
+    us.append(Unit('encode/v4/grow', lambda ctx: h_encode_grow(ctx, V4), must_cover=('term-added-after-a-serialisation', 'width-1', 'width-2'), weight=60, max_seconds=T))
     us.append(Unit('encode/v6/padding', h_encode_padding, must_cover=('unsorted-input', 'prefix'), weight=20))
     us.append(Unit('encode/vpn4/rd-ports', lambda ctx: h_encode(ctx, V4, (('destination-port', 2), ('destination',)), vpn=True), must_cover=('unsorted-input', 'width-2', 'prefix'), weight=100))
     us.append(Unit('encode/vpn6/rd-label', lambda ctx: h_encode(ctx, V6, (('flow-label', 1), ('source', ((32, 0), (128, 0)))), vpn=True), must_cover=('unsorted-input', 'width-4', 'prefix'), weight=100))
